@@ -483,8 +483,11 @@ func (e *Engine) loadGlobal(st *State, g *ssa.Global) Val {
 	t := g.Type().(*types.Pointer).Elem()
 	s := e.d.SortOf(t)
 	name := "G_" + sanitize(shortPkg(g.Pkg.Pkg.Path())) + "_" + sanitize(g.Name())
-	if isStruct(t) || s == "Tuple" {
-		panic(unsupported("struct-valued global " + g.String()))
+	if s == "Tuple" {
+		panic(unsupported("tuple-valued global " + g.String()))
+	}
+	if isStruct(t) {
+		e.d.StructOf(t)
 	}
 	e.d.konst(name, s)
 	if id, ok := e.errGlobals[g]; ok {
@@ -928,6 +931,7 @@ func (e *Engine) onWrite(st *State, a Val, v Val) {
 			continue
 		}
 		env := e.envFor(st, root, nil)
+		env.preferCells = true
 		nv := v
 		if nv.K != KTerm {
 			nv = term(e.asTerm(st, v), SRef, nil)
